@@ -45,11 +45,76 @@ class State:
         self.trace = []
 
     def clone(self):
-        # Function objects are shared (immutable); everything else is copied
         memo = {}
+        n = State.__new__(State)
+        n.frames = []
         for fr in self.frames:
-            memo[id(fr.fn)] = fr.fn
-        return copy.deepcopy(self, memo)
+            f2 = Frame(fr.fn, fr.ret_place, fr.ret_block)
+            f2.block, f2.idx = fr.block, fr.idx
+            f2.locals = {k: fastcopy(v, memo) for k, v in fr.locals.items()}
+            n.frames.append(f2)
+        n.pc = list(self.pc)
+        n.steps = self.steps
+        n.block_visits = dict(self.block_visits)
+        n.done, n.panic, n.bound_hit = self.done, self.panic, self.bound_hit
+        n.retval = fastcopy(self.retval, memo)
+        n.meta = {k: (v if k == "_facts" else fastcopy(v, memo)) for k, v in self.meta.items()}
+        n.trace = list(self.trace)
+        return n
+
+
+_IMMUTABLE = (BV, B, I, Str, Opaque, Ref, int, str, bool, float, type(None), type(UNIT), frozenset)
+
+
+def fastcopy(v, memo):
+    """Copy of a value graph that shares immutable leaves and preserves aliasing of mutable objects
+    (model objects, BoxRef cells).  Objects may opt out with `immutable = True`."""
+    if isinstance(v, _IMMUTABLE) or getattr(v, "immutable", False):
+        return v
+    k = id(v)
+    if k in memo:
+        return memo[k]
+    if isinstance(v, Adt):
+        nf = [fastcopy(f, memo) for f in v.fields]
+        if all(a is b for a, b in zip(nf, v.fields)):
+            memo[k] = v
+            return v
+        r = Adt(v.ty, v.variant, v.vname, nf)
+        memo[k] = r
+        return r
+    if isinstance(v, BoxRef):
+        r = BoxRef(None)
+        memo[k] = r
+        r.obj = fastcopy(v.obj, memo)
+        return r
+    if isinstance(v, list):
+        r = []
+        memo[k] = r
+        r.extend(fastcopy(x, memo) for x in v)
+        return r
+    if isinstance(v, tuple):
+        return tuple(fastcopy(x, memo) for x in v)
+    if isinstance(v, dict):
+        r = {}
+        memo[k] = r
+        for a, b in v.items():
+            r[a] = fastcopy(b, memo)
+        return r
+    if isinstance(v, set):
+        return set(v)
+    if hasattr(v, "__dict__"):
+        r = v.__class__.__new__(v.__class__)
+        memo[k] = r
+        for a, b in v.__dict__.items():
+            setattr(r, a, fastcopy(b, memo))
+        return r
+    if hasattr(v, "__slots__"):
+        r = v.__class__.__new__(v.__class__)
+        memo[k] = r
+        for a in v.__slots__:
+            setattr(r, a, fastcopy(getattr(v, a), memo))
+        return r
+    return copy.deepcopy(v, memo)
 
 
 ENUMS_STD = {
@@ -89,16 +154,57 @@ class Executor:
         self.max_block_visits = max_block_visits
         self.stats = dict(paths=0, forks=0, decides=0, steps=0)
         self.calls_seen = {}
+        self._model_cache = {}
 
     # ---------------------------------------------------------------- solver-backed decisions
     def feasible(self, st, extra):
         return self.solver.check(st.pc + list(extra)) == "sat"
+
+    RE_EQC = re.compile(r"^\(= (\S+) \(_ bv(\d+) (\d+)\)\)$")
+
+    def _syntactic(self, st, c):
+        """Cheap decisions from equalities with constants already on the path: returns True/False/None."""
+        neg = False
+        while c.startswith("(not ") and c.endswith(")"):
+            c, neg = c[5:-1], not neg
+        m = self.RE_EQC.match(c)
+        if not m:
+            return None
+        t, k = m.group(1), int(m.group(2))
+        facts = st.meta.get("_facts")
+        if facts is None or facts[0] != len(st.pc):
+            eqs, neqs = {}, {}
+            for a in st.pc:
+                n2 = False
+                while a.startswith("(not ") and a.endswith(")"):
+                    a, n2 = a[5:-1], not n2
+                mm = self.RE_EQC.match(a)
+                if mm:
+                    if n2:
+                        neqs.setdefault(mm.group(1), set()).add(int(mm.group(2)))
+                    else:
+                        eqs[mm.group(1)] = int(mm.group(2))
+            facts = (len(st.pc), eqs, neqs)
+            st.meta["_facts"] = facts
+        _, eqs, neqs = facts
+        r = None
+        if t in eqs:
+            r = eqs[t] == k
+        elif k in neqs.get(t, ()):
+            r = False
+        if r is None:
+            return None
+        return (not r) if neg else r
 
     def decide(self, st, cond):
         """Python bool for a B under st.pc; forks when both outcomes are feasible."""
         if cond.concrete:
             return cond.v
         self.stats["decides"] += 1
+        r = self._syntactic(st, cond.v)
+        if r is not None:
+            self.stats["syntactic"] = self.stats.get("syntactic", 0) + 1
+            return r
         t = self.feasible(st, [cond.smt()])
         f = self.feasible(st, ["(not %s)" % cond.smt()])
         if t and f:
@@ -165,6 +271,8 @@ class Executor:
             return self._read(st, v.depth, v.local, v.proj)
         if isinstance(v, BoxRef):
             return v.obj
+        if getattr(v, "deref_self", False):
+            return v
         raise Unsupported("deref of non-reference %r" % (v,))
 
     def write_place(self, st, place, val, depth=None):
@@ -184,6 +292,9 @@ class Executor:
                         base.obj = val
                         return
                     base.obj = self._update(base.obj, rest, val)
+                    return
+                if getattr(base, "deref_self", False):
+                    self._update(base, rest, val)
                     return
                 raise Unsupported("write through non-reference %r" % (base,))
         if not proj:
@@ -550,7 +661,7 @@ class Executor:
             st = work.pop()
             while True:
                 if st.done:
-                    snap = st.clone()
+                    snap = st  # on_path callbacks never mutate the finished state before forking
                     try:
                         more = on_path(st)
                         self.stats["paths"] += 1
@@ -562,18 +673,31 @@ class Executor:
                 fr = self.frame(st)
                 blk = fr.fn.blocks.get(fr.block)
                 at_term = blk is not None and fr.idx >= len(blk.stmts)
-                snap = st.clone() if at_term and blk.term.kind in ("switch", "call", "assert") else None
+                # switch/assert decide before they touch the state, so the state itself is the snapshot;
+                # a call into a model may have mutated objects before it forks: snapshot those
+                kind = blk.term.kind if at_term else None
+                snap = st.clone() if kind == "call" and self._is_model_call(blk.term) else None
                 try:
                     self.step(st)
                 except Fork as f:
                     if snap is None:
-                        raise Unsupported("fork inside a plain statement: " + str(f.cond))
+                        if kind not in ("switch", "assert", "call"):
+                            raise Unsupported("fork inside a plain statement: " + str(f.cond))
+                        snap = st
                     self._fork(work, snap, f)
                     break
                 except Panic as p:
                     st.panic, st.done = p.msg, True
             if self.stats["paths"] > max_paths:
                 raise Unsupported("path budget exceeded (%d)" % max_paths)
+
+    def _is_model_call(self, term):
+        callee = term.data[1]
+        r = self._model_cache.get(callee)
+        if r is None:
+            r = any(rx.search(callee) for rx, _ in self.models) or not any(rx.search(callee) for rx, _ in self.inline)
+            self._model_cache[callee] = r
+        return r
 
     def _fork(self, work, snap, f):
         self.stats["forks"] += 1
